@@ -156,7 +156,7 @@ func (k *Kit) Call(kind string, arg int, f func() error) *CtlRec {
 // VirtualDeadline bounds every blocking client call on the fake clock. Fake time only advances
 // when every goroutine of the bubble is durably blocked, so on code that makes progress the
 // deadline is never reached; it is far above the total virtual work of any program.
-const VirtualDeadline = 2 * time.Minute
+const VirtualDeadline = time.Second
 
 // Await runs f in its own goroutine and waits for it on the fake clock. It returns false if
 // the call had not returned when nothing else could run any more (a hang).
